@@ -8,7 +8,11 @@ from vlib import hexs
 def gen_check(res, want):
     """per-run obligations evaluated by the extracted checkers (diagnostics); the kernel-checked versions are the
     lemmas of GenChecks.v, whose build status std_coq reports"""
-    out = vlib.run_lines(vlib.DRIVER, ["gen-check"])
+    try:
+        out = vlib.run_lines(vlib.DRIVER, ["gen-check"])
+    except vlib.DriverMissing:
+        res.extra.setdefault("skipped_without_driver", []).append("gen_check")
+        return {}
     info = {}
     for l in out:
         f = l.split()
